@@ -230,7 +230,9 @@ def gen_groups(rng, n_networks, combos_per_net):
 def build_model(net):
     from cobra import Model, Reaction, Metabolite
     m = Model("n")
-    mets = {mid: Metabolite(mid, compartment=mid[-1], name="name of " + mid, formula="C%dH2" % (i + 1))
+    # every third metabolite has no formula (the Metabolite default, common in SBML files), one has an empty one
+    mets = {mid: Metabolite(mid, compartment=mid[-1], name="name of " + mid,
+                            formula=None if i % 3 == 1 else ("" if i == 3 else "C%dH2" % (i + 1)))
             for i, mid in enumerate(net["mets"])}
     rs = []
     for r in net["rxns"]:
